@@ -344,7 +344,11 @@ func normalizeVaryHeaderSeq2(vary string, reqHeader http.Header) iter.Seq2[strin
 				// (RFC 9110 §5.3) before normalization.
 				value = normalizeHeaderValue(name, strings.Join(values, ", "))
 			}
-			if !yield(name, value) {
+			// (A member that is not valid UTF-8 - and so no field name any request can
+			// carry - is filed under a name that survives the JSON encoding of the index,
+			// like the values: otherwise the reference never equals itself again and the
+			// index grows with every request.)
+			if !yield(jsonSafe(name), value) {
 				return
 			}
 		}
